@@ -26,7 +26,16 @@ to be plain char, a concrete call whose interpreted outcome differs from the ref
 its arguments).  Whatever is not understood is recorded as 'cannot decide' (ck.deferred / dtable.Undecidable -> exit 2): a
 construct the concrete interpreter does not model, undefined or unspecified behaviour it runs into (signed overflow, ordering
 of pointers into different objects, a result that depends on the magnitude - not the sign - of what a compare primitive
-returns), a member of the interface that is not there or has other parameters."""
+returns), a member of the interface that is not there or has other parameters.
+
+Forms the evaluators follow beyond plain statements: private helpers and closures, plain aggregates (struct Window { first,
+length } built by = { a, b }, field by field or copied; structs declared inside a function), std::pair / std::make_pair /
+std::tie(a, b) = pair, switch with labels at the top level of its body (fall-through included), range-based for over a view,
+and - in the small model of the guards - local arrays of small integers used as byte-membership tables (bool wanted[256] = {};
+wanted[(unsigned char)c] = true; ... wanted[(unsigned char)*cur]): an index that is not known to lie inside the array or an
+element that was never written ends the evaluation as 'cannot decide'."""
+import re
+
 from engine import ir, dtable, match, cfg as cfgm
 from engine.ir import kids, strip_casts, const_int, ref_of
 
@@ -42,7 +51,8 @@ def sig(fn):
 
 # ---------------------------------------------------------------- small-model evaluation of a StringView member
 class Stop(Exception):
-    """end of one evaluated path: kind = throw | return | range | opaque"""
+    """end of one evaluated path: kind = throw | return | range | opaque | undefined (an access to a local array that is not
+    known to be defined: no conclusion at all is drawn from such a path)"""
     def __init__(self, kind, payload=None):
         self.kind, self.payload = kind, payload
 
@@ -126,8 +136,105 @@ def is_F(v):
     return v == FOREIGN or is_Q(v) or is_L(v)
 
 
+def is_A(v):
+    """("A", type, ((field name, value), ...)) = an object of a plain aggregate (struct Window { const char* first; size_type
+    length; }) or a std::pair: a value, copied as a whole"""
+    return isinstance(v, tuple) and v[0] == "A"
+
+
+def is_T(v):
+    """("T", number of elements, default, ((index | "D", value), ...)) = a local array of small integers: every element has the
+    default value (0 after = {}, UNINIT without an initialiser) except where a store went to; "D" = the store went to an
+    element chosen by data (a byte converted to unsigned char)"""
+    return isinstance(v, tuple) and v[0] == "T"
+
+
 def sval(v):
     return v - (1 << 64) if v >> 63 else v
+
+
+def pair_elems(ty):
+    """the two element types of std::pair<A, B>, or None"""
+    t = bare_ty(ty)
+    if not (t.startswith("std::pair<") and t.endswith(">")):
+        return None
+    inner, depth, cut = t[len("std::pair<"):-1], 0, []
+    for i, ch in enumerate(inner):
+        depth += ch in "<(" 
+        depth -= ch in ">)"
+        if ch == "," and depth == 0:
+            cut.append(i)
+    if len(cut) != 1:
+        return None
+    return inner[:cut[0]].strip(), inner[cut[0] + 1:].strip()
+
+
+def switch_plan(s):
+    """a switch whose labels all stand at the top level of its body: (condition, statements of the body in order, {case
+    value: index of the statement the label stands before}, index for default | None); None for any other switch (a label
+    inside a nested statement, a declaration in the head, a case without a constant value)"""
+    c, body = (kids(s) + [None, None])[:2]
+    if c is None or body is None or "init" in s or "condvar" in s or len(kids(s)) != 2:
+        return None
+    flat, labels, default = [], {}, [None]
+    for x in (kids(body) if body["k"] == "CompoundStmt" else [body]):
+        while x is not None and x["k"] in ("CaseStmt", "DefaultStmt"):
+            if x["k"] == "CaseStmt":
+                if "val" not in x or int(x["val"]) in labels or len(kids(x)) != 1:
+                    return None
+                labels[int(x["val"])] = len(flat)
+            else:
+                if default[0] is not None or len(kids(x)) != 1:
+                    return None
+                default[0] = len(flat)
+            x = kids(x)[0]
+        if x is not None:
+            flat.append(x)
+    if any(y["k"] in ("CaseStmt", "DefaultStmt", "SwitchStmt", "LabelStmt", "GotoStmt") for st in flat for y in ir.walk(st)):
+        return None
+    return c, flat, labels, default[0]
+
+
+def tie_targets(lhs):
+    """the lvalues a, b of std::tie(a, b) = ..., or None"""
+    x = lhs
+    while x is not None and x["k"] in ("MaterializeTemporaryExpr", "ExprWithCleanups", "CXXBindTemporaryExpr", "ParenExpr", "ImplicitCastExpr") and kids(x):
+        x = kids(x)[0]
+    if x is not None and "callee" in x and x["callee"].get("qname") == "std::tie" and all(a is not None and a["k"] != "DefaultArg" for a in kids(x)):
+        return kids(x)
+    return None
+
+
+def plain_aggregate(tu, ty):
+    """the record (qname, fields (name, ty, mid) in declaration order) of the plain aggregate ty: a struct of this translation
+    unit without bases, constructors, assignment operators, destructor and default member initialisers, so that = { a, b }
+    initialises the fields one by one and a copy copies them; None for any other type.  ty is the type as an expression
+    spells it (a struct declared inside a function is spelled without its scope) or the qualified name that a member
+    access gives as the owner."""
+    t = bare_ty(ty)
+    if t.startswith("struct "):
+        t = t[7:]
+    if tu is None or not t or t == SV or t.startswith("std::"):
+        return None
+    if t.startswith("(unnamed struct at ") or t.startswith("(anonymous struct at "):
+        rs = [r for r in tu.records if r.get("full") == "" and r.get("fields")]     # the only struct without a name, if there is one only
+    else:
+        rs = [r for r in tu.records if t in (r.get("qname"), r.get("full"))]
+    if len(rs) != 1 or rs[0].get("bases") or not rs[0].get("fields") or not rs[0].get("qname"):
+        return None
+    short = rs[0]["qname"].rsplit("::", 1)[-1]
+    if any(m.get("name") in (short, "~" + short, "operator=") for m in rs[0].get("methods", [])):
+        return None
+    if any(f.get("has_init") or f.get("mid") is None or not f.get("name") for f in rs[0]["fields"]):
+        return None
+    if len({f["name"] for f in rs[0]["fields"]}) != len(rs[0]["fields"]):
+        return None
+    return rs[0]
+
+
+TABLE_TY = re.compile(r"^(bool|char|unsigned char|signed char|int|unsigned int|unsigned long|long)\s*\[(\d+)\]$")
+# conversions to these types keep every value 0..255
+WIDE_INT = ("int", "unsigned int", "long", "unsigned long", "long long", "unsigned long long")
 
 
 class GuardEval:
@@ -139,6 +246,7 @@ class GuardEval:
     Stop("range").  A branch on data asks the oracle (Fork).  Anything else that is not understood ends the path with
     Stop("opaque"): the caller must not draw a conclusion from it."""
     MAX_ITER = 40
+    CASTS = ("ImplicitCastExpr", "CStyleCastExpr", "CXXStaticCastExpr", "CXXFunctionalCastExpr", "CXXConstCastExpr")
 
     def __init__(self, fn, size, args, views, oracle=(), watch=None):
         self.fn = fn
@@ -192,13 +300,19 @@ class GuardEval:
             return (v | (M64 ^ 0xFFFFFFFF)) if v >> 31 else v
         if t == "bool":
             return int(v != 0)
+        if t in ("unsigned char", "unsigned short"):
+            return v & (0xFF if t == "unsigned char" else 0xFFFF)
+        if t in ("char", "signed char", "short"):
+            bits = 16 if t == "short" else 8
+            v &= (1 << bits) - 1
+            return (v | (M64 ^ ((1 << bits) - 1))) if v >> (bits - 1) else v
         self.opaque(e)
 
     def mentions_view(self, e):
         for y in ir.walk(e):
             if y["k"] == "This":
                 return True
-            if y["k"] == "DeclRefExpr" and isinstance(self.env.get(y["ref"]["id"]), tuple) and self.env[y["ref"]["id"]][0] in ("P", "V", "C"):
+            if y["k"] == "DeclRefExpr" and isinstance(self.env.get(y["ref"]["id"]), tuple) and self.env[y["ref"]["id"]][0] in ("P", "V", "C", "A", "T"):
                 return True
         return False
 
@@ -219,12 +333,213 @@ class GuardEval:
             return e["ref"]["id"]
         return None
 
+    def aggregate(self, ty):
+        """field ids of the plain aggregate ty in declaration order (a struct of this translation unit without bases,
+        constructors, assignment operators, destructor and default member initialisers); None for any other type"""
+        r = plain_aggregate(getattr(self.fn, "tu", None), ty)
+        return None if r is None else (r["qname"], [f["name"] for f in r["fields"]])
+
+    def make_pair(self, ty, vals, e):
+        """std::pair<A, B>(x, y) / std::make_pair(x, y) / a copy of a pair of the same type, from the values of the arguments"""
+        el = pair_elems(ty)
+        if el is None:
+            self.opaque(e)
+        if len(vals) == 2:
+            out = []
+            for v, t in zip(vals, el):
+                if is_int(v):
+                    v = self.convert(v, t, e)       # an element type that is not an integer type of the model: not understood
+                elif not (is_P(v) or is_F(v)) or is_L(v) or not bare_ty(t).endswith("*"):
+                    self.opaque(e)
+                out.append(v)
+            return ("A", bare_ty(ty), (("first", out[0]), ("second", out[1])))
+        if len(vals) == 1 and is_A(vals[0]) and vals[0][1] == bare_ty(ty):
+            return vals[0]
+        self.opaque(e)
+
+    def lv_slot(self, x, e):
+        """the place an lvalue names: (declaration id of a local variable / parameter, None) or (declaration id of a local
+        aggregate, field name)"""
+        d = self.lvalue_did(x)
+        if d is not None:
+            if d not in self.env or d in self.views or is_T(self.env[d]):
+                self.opaque(e)
+            return d, None
+        x0 = strip_casts(x)
+        while x0 is not None and x0["k"] == "ParenExpr":
+            x0 = strip_casts(kids(x0)[0])
+        if x0 is not None and x0["k"] == "MemberExpr" and not x0.get("arrow") and kids(x0):
+            od = self.lvalue_did(kids(x0)[0])
+            obj = self.env.get(od) if od is not None else None
+            if is_A(obj) and self.owner_is(x0, obj) and any(m == x0.get("member") for m, _ in obj[2]):
+                return od, x0["member"]
+        self.opaque(e)
+
+    @staticmethod
+    def owner_is(m, obj):
+        return obj[1] == m.get("owner") or (m.get("owner") == "std::pair" and obj[1].startswith("std::pair<"))
+
+    def lv_get(self, slot, e):
+        v = self.env[slot[0]]
+        if slot[1] is not None:
+            v = dict(v[2])[slot[1]]
+        if v == UNINIT:
+            self.opaque(e)
+        return v
+
+    def lv_set(self, slot, v, e):
+        if is_T(v):
+            self.opaque(e)
+        if slot[1] is None:
+            self.env[slot[0]] = v
+            return
+        obj = self.env[slot[0]]
+        if is_A(v):
+            self.opaque(e)
+        self.env[slot[0]] = ("A", obj[1], tuple((m, v if m == slot[1] else w) for m, w in obj[2]))
+
+    def init_list(self, e):
+        """= { a, b } of a plain aggregate (one initialiser per field, in the order of the fields) / = { } or = { v0, v1 } of a
+        local array of small integers (the elements that are not named are zero)"""
+        agg = self.aggregate(e.get("ty"))
+        if agg is not None and len(kids(e)) == len(agg[1]):
+            vals = []
+            for x in kids(e):
+                if x is None:
+                    self.opaque(e)
+                if x["k"] == "ImplicitValueInitExpr":
+                    t = bare_ty(x.get("ty"))
+                    v = 0 if t in UNSIGNED64 + SIGNED64 + ("int", "unsigned int", "bool") else FOREIGN if t.endswith("*") else None
+                    if v is None:
+                        self.opaque(e)
+                else:
+                    v = self.arg(x)
+                if is_T(v):
+                    self.opaque(e)
+                vals.append(v)
+            return ("A", agg[0], tuple(zip(agg[1], vals)))
+        m = TABLE_TY.match(bare_ty(e.get("ty")))
+        if m and len(kids(e)) <= int(m.group(2)):
+            vals = [self.ev(x) for x in kids(e)]
+            if all(is_int(v) for v in vals):
+                return ("T", int(m.group(2)), 0, tuple(enumerate(vals)))
+        self.opaque(e)
+
+    def cast_value(self, e, v):
+        """the value v of the operand of the cast e after the cast"""
+        if e.get("cast") in ("IntegralCast", "IntegralToBoolean") or (is_int(v) and e["k"] != "ImplicitCastExpr"):
+            return self.convert(v, e.get("ty"), e)
+        if e.get("cast") == "PointerToBoolean":
+            self.opaque(e)
+        if is_C(v):
+            return ("C", None) if e.get("cast") in ("IntegralCast", "IntegralToBoolean") or e["k"] != "ImplicitCastExpr" else v
+        return v
+
+    def table_index(self, x):
+        """an index into a local table: (value, largest value that the type of the index admits | None, index of the byte of
+        this view that the index is the unsigned char image of | None)"""
+        chain = []
+        n = x
+        while n is not None and n["k"] in self.CASTS + ("ParenExpr",) and kids(n):
+            chain.append(n)
+            n = kids(n)[0]
+        v = self.ev(n)
+        byte = v[1] if is_C(v) and len(v) == 2 and bare_ty(n.get("ty")) in ("char", "unsigned char", "signed char") else None
+        lim = None
+        for c in reversed(chain):
+            if c["k"] == "ParenExpr":
+                continue
+            t = bare_ty(c.get("ty"))
+            v = self.cast_value(c, v)
+            if t == "unsigned char":
+                lim = 255                       # char -> unsigned char maps the 256 bytes one to one onto 0..255
+            elif t == "bool":
+                lim, byte = 1, None
+            elif t not in WIDE_INT or lim is None:
+                lim, byte = None, None          # a conversion that may change the value, or a plain char (negative index)
+        if lim is None:
+            byte = None
+        return v, lim, byte
+
+    def table_of(self, base):
+        """declaration id of the local table that the expression base names, or None"""
+        b = strip_casts(base)
+        while b is not None and b["k"] == "ParenExpr":
+            b = strip_casts(kids(b)[0])
+        if b is not None and b["k"] == "DeclRefExpr" and is_T(self.env.get(b["ref"]["id"])):
+            return b["ref"]["id"]
+        return None
+
+    def table_slot(self, tab, x, e):
+        """the element of the table tab that the index expression x selects: an int, or "D" (chosen by data, inside the table)"""
+        i, lim, byte = self.table_index(x)
+        if is_int(i):
+            if i >= tab[1]:
+                raise Stop("undefined", e)      # outside the array
+            return i, None
+        if is_C(i) and lim is not None and lim < tab[1]:
+            return "D", byte
+        if is_C(i):
+            raise Stop("undefined", e)          # an element chosen by data that is not known to lie inside the array (a plain char may be negative)
+        self.opaque(e)
+
+    def table_read(self, tab, x, e):
+        slot, byte = self.table_slot(tab, x, e)
+        _, n, dflt, stores = tab
+        vals = [v for _, v in stores] + [dflt]
+        if slot != "D" and all(i != "D" for i, _ in stores):
+            v = dflt
+            for i, w in stores:
+                if i == slot:
+                    v = w
+            if v == UNINIT:
+                raise Stop("undefined", e)      # an element that was never written
+            return v
+        if any(v == UNINIT for v in vals):
+            raise Stop("undefined", e)
+        if slot == "D" and not stores:
+            return dflt                         # every element has this value
+        if slot == "D" and byte is not None and dflt == 0 and 1 <= len(stores) <= 8 and all(w == 1 for _, w in stores):
+            # a membership table: between one and eight of its (at least 256) elements are set, chosen by other data
+            # than this byte - whether this byte of the view is among them can be made true and false by the byte alone
+            return ("C", None, byte)
+        return ("C", None)
+
     def assign(self, lhs, v, e):
         d = self.lvalue_did(lhs)
         if d is not None:
-            if d in self.views:
+            if d in self.views or is_T(v) or is_T(self.env.get(d)):
                 self.opaque(e)
             self.env[d] = v
+            return v
+        l0 = strip_casts(lhs)
+        while l0 is not None and l0["k"] == "ParenExpr":
+            l0 = strip_casts(kids(l0)[0])
+        # std::tie(a, b) = a pair: a = first, b = second
+        tt = tie_targets(lhs)
+        if tt is not None:
+            if not (is_A(v) and pair_elems(v[1]) is not None and len(tt) == 2):
+                self.opaque(e)
+            for t, (_, w) in zip(tt, v[2]):
+                if w == UNINIT or is_A(w):
+                    self.opaque(e)
+                self.lv_set(self.lv_slot(t, e), self.convert(w, t.get("ty"), e), e)
+            return v
+        # a store to a field of a local aggregate
+        if l0 is not None and l0["k"] == "MemberExpr" and not l0.get("arrow") and kids(l0) and is_A(self.env.get(self.lvalue_did(kids(l0)[0]))):
+            self.lv_set(self.lv_slot(l0, e), v, e)
+            return v
+        # a store to an element of a local table
+        tp = match.index_parts(l0) if l0 is not None and l0["k"] == "ArraySubscriptExpr" else None
+        td = self.table_of(tp[0]) if tp else None
+        if td is not None:
+            if not (is_int(v) or (is_C(v) and len(v) == 2)):
+                self.opaque(e)
+            tab = self.env[td]
+            slot, _ = self.table_slot(tab, tp[1], e)
+            if len(tab[3]) >= 64:
+                self.opaque(e)
+            self.env[td] = ("T", tab[1], tab[2], tab[3] + ((slot, v if is_int(v) else ("C", None)),))
             return v
         # a store through a pointer that does not belong to this view (the output buffer of copy)
         l0 = strip_casts(lhs)
@@ -304,17 +619,12 @@ class GuardEval:
             return self.convert(int(e["val"]) & M64, e.get("ty"), e)
         if "cval" in e and bare_ty(e.get("ty")) in UNSIGNED64 + SIGNED64 + ("int", "unsigned int", "bool"):
             return self.convert(int(e["cval"]) & M64, e.get("ty"), e)
-        if k in ("ImplicitCastExpr", "CStyleCastExpr", "CXXStaticCastExpr", "CXXFunctionalCastExpr", "CXXConstCastExpr") and kids(e):
-            v = self.ev(kids(e)[0])
-            if e.get("cast") in ("IntegralCast", "IntegralToBoolean") or (is_int(v) and k != "ImplicitCastExpr"):
-                return self.convert(v, e.get("ty"), e)
-            if e.get("cast") == "PointerToBoolean":
-                self.opaque(e)
-            if is_C(v):
-                return ("C", None) if e.get("cast") in ("IntegralCast", "IntegralToBoolean") or k != "ImplicitCastExpr" else v
-            return v
+        if k in self.CASTS and kids(e):
+            return self.cast_value(e, self.ev(kids(e)[0]))
         if k in ("NullPtr", "CXXNullPtrLiteralExpr", "GNUNullExpr"):
             return FOREIGN
+        if k == "InitListExpr":
+            return self.init_list(e)
         if k == "LambdaExpr":
             # a closure: a predicate handed to an algorithm sees the bytes the algorithm shows it, nothing else; called in
             # this function its body is evaluated (call_closure).  Variables captured by reference are the variables of the
@@ -352,6 +662,14 @@ class GuardEval:
                         return self.views[ref_of(base)]
                     if f[1] == "ptr_":
                         return ("Q", ref_of(base), 0)
+            if f and not e.get("arrow") and e.get("owner") != SV and (self.aggregate(e.get("owner")) is not None or e.get("owner") == "std::pair"):
+                obj = self.ev(f[0])
+                if is_A(obj) and self.owner_is(e, obj):
+                    for m, v in obj[2]:
+                        if m == e.get("member"):
+                            if v == UNINIT:
+                                self.opaque(e)
+                            return v
             self.opaque(e)
         if k in ("CXXConstructExpr", "CXXTemporaryObjectExpr"):
             return self.construct(e)
@@ -364,6 +682,8 @@ class GuardEval:
             c0, a, b2 = kids(e)
             return self.ev(a) if self.truth(c0) else self.ev(b2)
         ip = match.index_parts(e) if k in ("ArraySubscriptExpr", "CXXOperatorCallExpr") else None
+        if ip and k == "ArraySubscriptExpr" and self.table_of(ip[0]) is not None:
+            return self.table_read(self.env[self.table_of(ip[0])], ip[1], e)
         if ip:
             base, idx = self.ev(ip[0]), self.ev(ip[1])
             if is_P(base) and is_int(idx):
@@ -391,8 +711,20 @@ class GuardEval:
             if vals and is_F(vals[0]) and all(is_F(v) or is_int(v) for v in vals):
                 return FOREIGN
             self.opaque(e)
+        if pair_elems(ty) is not None:
+            return self.make_pair(ty, [self.arg(x) for x in a], e)
+        agg = self.aggregate(ty)
+        if agg is not None:
+            if not a:
+                return ("A", agg[0], tuple((m, UNINIT) for m in agg[1]))      # Window w; - the fields have no value yet
+            v = self.ev(a[0]) if len(a) == 1 else None
+            if is_A(v) and v[1] == agg[0]:
+                return v                                                # the implicit copy / move constructor
+            self.opaque(e)
         if len(a) == 1:
             v = self.ev(a[0])
+            if is_A(v) or is_T(v):
+                self.opaque(e)
             if "reverse_iterator" in ty and is_P(v):
                 if v[1] == "rev":
                     return v
@@ -409,12 +741,10 @@ class GuardEval:
         op = e.get("op")
         x = kids(e)[0]
         if op in ("++", "--"):
-            d = self.lvalue_did(x)
-            if d is None or d not in self.env or d in self.views:
-                self.opaque(e)
-            old = self.env[d]
+            slot = self.lv_slot(x, e)
+            old = self.lv_get(slot, e)
             new = self.arith("+" if op == "++" else "-", old, 1, e)
-            self.env[d] = new
+            self.lv_set(slot, new, e)
             post = bool(e.get("postfix")) if e["k"] == "UnaryOperator" else len(kids(e)) == 2
             return old if post else new
         if e["k"] == "CXXOperatorCallExpr" and op not in ("*", "!", "-"):
@@ -461,13 +791,11 @@ class GuardEval:
         if op == "=":
             return self.assign(l, self.ev(r), e)
         if op in ("+=", "-="):
-            d = self.lvalue_did(l)
-            if d is None or d not in self.env or d in self.views:
-                self.opaque(e)
-            v = self.arith(op[0], self.env[d], self.ev(r), e)
+            slot = self.lv_slot(l, e)
+            v = self.arith(op[0], self.lv_get(slot, e), self.ev(r), e)
             if is_int(v):
                 v = self.convert(v, l.get("ty"), e)
-            self.env[d] = v
+            self.lv_set(slot, v, e)
             return v
         if op in ("+", "-", "*", "/", "%", "<", ">", "<=", ">=", "==", "!="):
             x, y = self.ev(l), self.ev(r)
@@ -542,6 +870,8 @@ class GuardEval:
                 if t in SIGNED64 + ("int",):
                     return (min if name == "min" else max)(x, y, key=sval)
             self.opaque(e)
+        if qn == "std::make_pair" and len(vals) == 2:
+            return self.make_pair(e.get("ty"), vals, e)
         if qn == "std::distance" and len(vals) == 2:
             if is_P(vals[0]) and is_P(vals[1]) and vals[0][1] == vals[1][1]:
                 return (vals[1][2] - vals[0][2]) & M64
@@ -572,6 +902,8 @@ class GuardEval:
                 self.views[prm["did"]] = self.views[d]
             elif (prm["ty"] or "").rstrip().endswith("&") and "const" not in prm["ty"]:
                 return NotImplemented                       # an out-parameter
+            elif is_T(v):
+                return NotImplemented                       # a pointer to a local table: stores through it are not followed
             else:
                 self.env[prm["did"]] = v
         self.depth += 1
@@ -679,7 +1011,19 @@ class GuardEval:
                     self.opaque(s)
                 if (v.get("ty") or "").rstrip().endswith("&"):
                     self.opaque(s)              # a reference alias: not followed here
-                self.env[v["did"]] = self.ev(kids(v)[0]) if kids(v) and kids(v)[0] is not None else UNINIT
+                tm = TABLE_TY.match(bare_ty(v.get("ty")))
+                if tm and not v.get("static"):
+                    # a local array of small integers: = { ... } or no initialiser
+                    init = kids(v)[0] if kids(v) else None
+                    val = ("T", int(tm.group(2)), UNINIT, ()) if init is None else self.ev(init) if init["k"] == "InitListExpr" else None
+                    if not is_T(val) or val[1] != int(tm.group(2)):
+                        self.opaque(s)
+                    self.env[v["did"]] = val
+                    continue
+                val = self.ev(kids(v)[0]) if kids(v) and kids(v)[0] is not None else UNINIT
+                if is_T(val):
+                    self.opaque(s)              # a pointer to a local table: stores through it are not followed
+                self.env[v["did"]] = val
             return
         if k in ("ForStmt", "WhileStmt", "DoStmt"):
             if "condvar" in s:
@@ -707,9 +1051,56 @@ class GuardEval:
             raise _Continue()
         if k in ("CXXStaticCastExpr", "CStyleCastExpr", "CXXFunctionalCastExpr") and bare_ty(s.get("ty")) == "void":
             return
-        if k in ("SwitchStmt", "GotoStmt", "LabelStmt", "CXXTryStmt", "CXXForRangeStmt", "AttributedStmt"):
+        if k == "CXXForRangeStmt":
+            return self.range_for(s)
+        if k == "SwitchStmt":
+            plan = switch_plan(s)
+            if plan is None:
+                self.opaque(s)
+            v = self.ev(plan[0])
+            if not is_int(v):
+                self.opaque(s)
+            start = next((i for c, i in plan[2].items() if c & M64 == v), plan[3])
+            if start is None:
+                return
+            try:
+                for st in plan[1][start:]:          # from the label on, falling through the labels that follow
+                    self.run(st)
+            except _Break:
+                pass
+            return
+        if k in ("GotoStmt", "LabelStmt", "CXXTryStmt", "AttributedStmt", "CaseStmt", "DefaultStmt"):
             self.opaque(s)
         self.ev(s)
+
+    def range_for(self, s):
+        """for (char c : s) over a StringView parameter (its bytes are data, its size is part of the small model) or over
+        *this (byte 0, 1, ... size_ - 1 of this view are read); the loop variable is a char or a const char&"""
+        rng, var, body = (kids(s) + [None, None, None])[:3]
+        if rng is None or var is None or var["k"] != "VarDecl" or len(kids(s)) != 3 or bare_ty(var.get("ty")) != "char":
+            self.opaque(s)
+        vt = (var.get("ty") or "").strip()
+        if (vt.endswith("&") or var.get("isref")) and not vt.startswith("const "):
+            self.opaque(s)
+        r0 = strip_casts(rng)
+        while r0 is not None and r0["k"] == "ParenExpr":
+            r0 = strip_casts(kids(r0)[0])
+        if r0 is not None and r0["k"] == "DeclRefExpr" and r0["ref"]["id"] in self.views and bare_ty(r0.get("ty")) == SV:
+            n, own = self.views[r0["ref"]["id"]], False
+        elif r0 is not None and match.deref_of(r0) is not None and strip_casts(match.deref_of(r0))["k"] == "This":
+            n, own = self.S, True
+        else:
+            self.opaque(s)
+        if n > self.MAX_ITER:
+            self.opaque(s)
+        for i in range(n):
+            self.env[var["did"]] = self.read(("P", "fwd", i), 1, s) if own else ("C", None)
+            try:
+                self.run(body)
+            except _Break:
+                return
+            except _Continue:
+                pass
 
 
 def explore(fn, S, args, views, watch=None, max_forks=6):
@@ -805,6 +1196,13 @@ def outcome(name, paths):
     """what the member does on one point of the small model, from the evaluated paths: an outcome tuple like spec()'s,
     ('scan', dir|None, index, 'range'|'read', info), or ('opaque', why)"""
     lead = paths[0]
+    for p in paths:
+        if p[0] == "undefined":
+            # whatever was read before: the evaluation ran into an access to a local array that is not known to be defined
+            return ("opaque", "element of a local array that may lie outside it or was never written, line %s" % (p[1].get("l", "?") if isinstance(p[1], dict) else "?"))
+    if name in DIRECTION and len(paths) == 1 and lead[0] == "return" and is_int(lead[1][0]):
+        # one path, no branch on bytes: whatever was read, the answer does not depend on the content of the view
+        return ("ret", lead[1][0])
     if not any(p[2] for p in paths):
         if len(paths) != 1:
             return ("opaque", "paths differ without a read")
@@ -1178,7 +1576,7 @@ def scan_bound_grid(fn, call, base_off, ln):
                         reached += 1
                         if off > S or n > S - off:
                             return (S, off, n, iv, vv)
-                    if kind in ("opaque", "cut", "fallthrough") and not (kind == "fallthrough" and fn.d.get("ret", "") == "void"):
+                    if kind in ("opaque", "undefined", "cut", "fallthrough") and not (kind == "fallthrough" and fn.d.get("ret", "") == "void"):
                         unclear = True
     return "?" if unclear or not reached else None
 
@@ -1390,13 +1788,33 @@ class RelEval:
             return None
         if k == "NullStmt":
             return None
+        if k == "SwitchStmt":
+            plan = switch_plan(s)
+            if plan is None:
+                raise NotUnderstood("switch with labels inside nested statements at line %s" % s.get("l"))
+            start = plan[2].get(int(self.ev(plan[0])), plan[3])
+            if start is None:
+                return None
+            try:
+                for st in plan[1][start:]:          # from the label on, falling through the labels that follow
+                    r = self.run(st)
+                    if r is not None:
+                        return r
+            except _Break:
+                pass
+            return None
+        if k == "BreakStmt":
+            raise _Break()
         raise NotUnderstood("%s at line %s" % (k, s.get("l")))
 
 
 def rel_table(fn, op):
     """-> None (agrees with c OP 0 for every sign of compare()), (c, got) of a disagreeing row; raises NotUnderstood"""
     for c in (-1, 0, 1, -7, 7):
-        r = RelEval(fn, c).run(fn.body)
+        try:
+            r = RelEval(fn, c).run(fn.body)
+        except _Break:
+            raise NotUnderstood("break outside a switch")
         if r is None:
             raise NotUnderstood("falls off the end")
         if bool(r) != bool(REL[op](c)):
@@ -1535,7 +1953,8 @@ class FwdEval:
     """evaluates a forwarding overload of the find family on one point (pos, n) of a small model.  Values: 64-bit integers,
     ("p", base, offset) = a pointer into the C string of parameter k (base ("s", k)) or to the character parameter k itself
     (base ("a", k)), ("null",), ("chr", k) = the character parameter, ("v", pointer, length) = a
-    StringView (constructors are evaluated from their initialiser lists), ("call", pointer, length, pos) = the result of
+    StringView (constructors are evaluated from their initialiser lists), ("g", type, ((field, value), ...)) = an object of a
+    plain aggregate or a std::pair, ("call", pointer, length, pos) = the result of
     calling another overload of the same member on *this, reduced to what the StringView overload is asked to search for.
     Conditions are decided on the integers of the model; whatever else is met raises NotUnderstood."""
 
@@ -1664,7 +2083,18 @@ class FwdEval:
                 v = self.ev(f[0])
                 if isinstance(v, tuple) and v[0] == "v":
                     return v[1] if f[1] == "ptr_" else v[2]
+            if f and e.get("owner") not in (SV, None) and not e.get("arrow"):
+                v = self.ev(f[0])
+                if isinstance(v, tuple) and v[0] == "g" and (v[1] == e["owner"] or (e["owner"] == "std::pair" and v[1].startswith("std::pair<"))):
+                    for m, w in v[2]:
+                        if m == e.get("member"):
+                            return w
             self.nu(e)
+        if k == "InitListExpr":
+            rec = plain_aggregate(self.tu, e.get("ty"))
+            if rec is None or len(kids(e)) != len(rec["fields"]) or any(x is None or x["k"] == "ImplicitValueInitExpr" for x in kids(e)):
+                self.nu(e, "initialiser list")
+            return ("g", rec["qname"], tuple((f["name"], self.field_value(self.ev(x), f.get("ty"), e)) for f, x in zip(rec["fields"], kids(e))))
         if k in ("CXXConstructExpr", "CXXTemporaryObjectExpr"):
             return self.construct(e)
         if k == "ConditionalOperator":
@@ -1751,10 +2181,34 @@ class FwdEval:
             return v
         self.nu(e)
 
+    def field_value(self, v, ty, e):
+        """the value v stored in a field / element of type ty"""
+        if is_int(v):
+            return self.conv(v, ty, e)
+        if isinstance(v, tuple) and v[0] in ("p", "null") and bare_ty(ty).endswith("*"):
+            return v
+        self.nu(e, "value of a field of type %s" % ty)
+
+    def pair_of(self, ty, vals, e):
+        el = pair_elems(ty)
+        if el is not None and len(vals) == 2:
+            return ("g", bare_ty(ty), (("first", self.field_value(vals[0], el[0], e)), ("second", self.field_value(vals[1], el[1], e))))
+        if el is not None and len(vals) == 1 and isinstance(vals[0], tuple) and vals[0][:2] == ("g", bare_ty(ty)):
+            return vals[0]
+        self.nu(e, "construction of %s" % ty)
+
     def construct(self, e):
         a = [x for x in kids(e) if x is not None]
         if any(x["k"] == "DefaultArg" for x in a):
             self.nu(e, "default argument")
+        if pair_elems(e.get("ty")) is not None:
+            return self.pair_of(e.get("ty"), [self.ev(x) for x in a], e)
+        rec = plain_aggregate(self.tu, e.get("ty")) if bare_ty(e.get("ty")) != SV else None
+        if rec is not None:
+            v = self.ev(a[0]) if len(a) == 1 else None
+            if isinstance(v, tuple) and v[:2] == ("g", rec["qname"]):
+                return v                                        # the implicit copy / move constructor
+            self.nu(e, "construction of %s" % e.get("ty"))
         if bare_ty(e.get("ty")) != SV:
             if len(a) == 1:
                 return self.conv(self.ev(a[0]), e.get("ty"), e) if bare_ty(e.get("ty")) in INT_TYPES else self.nu(e)
@@ -1805,6 +2259,8 @@ class FwdEval:
             if is_int(x) and is_int(y) and t in SIGNED64 + ("int",):
                 return (min if name == "min" else max)(x, y, key=sval)
             self.nu(e)
+        if qn == "std::make_pair" and len(a) == 2:
+            return self.pair_of(e.get("ty"), [self.ev(x) for x in a], e)
         if e.get("member_call"):
             obj = strip_casts(a[0])
             if not (obj["k"] == "This" or (match.deref_of(obj) is not None and strip_casts(match.deref_of(obj))["k"] == "This")):
@@ -1879,6 +2335,24 @@ class FwdEval:
                 return
             self.ev(s)
             return
+        if k == "SwitchStmt":
+            plan = switch_plan(s)
+            if plan is None:
+                self.nu(s, "switch with labels inside nested statements")
+            v = self.ev(plan[0])
+            if not is_int(v):
+                self.nu(s, "switch on a non-integer")
+            start = next((i for c, i in plan[2].items() if c & M64 == v), plan[3])
+            if start is None:
+                return
+            try:
+                for st in plan[1][start:]:          # from the label on, falling through the labels that follow
+                    self.run(st)
+            except _Break:
+                pass
+            return
+        if k == "BreakStmt":
+            raise _Break()
         self.nu(s, k)
 
 
@@ -1924,6 +2398,8 @@ def fwd_table(tu, fn, kind):
                 raise NotUnderstood("falls off the end")
             except _Ret as r:
                 v = r.v
+            except _Break:
+                raise NotUnderstood("break outside a switch")
             except RecursionError:
                 raise NotUnderstood("recursion")
             if not (isinstance(v, tuple) and v[0] == "call"):
@@ -2600,11 +3076,30 @@ class ConcEval:
     def x_construct(self, e):
         return self.construct(e)
 
+    def x_initlist(self, e):
+        """= { a, b } of a plain aggregate: one initialiser per field, in the order of the fields"""
+        rec = plain_aggregate(self.tu, e.get("ty"))
+        if rec is None or len(kids(e)) != len(rec["fields"]):
+            self.undec("initialiser list of %s" % e.get("ty"), e)
+        obj = Obj(rec["qname"], {})
+        for f, x in zip(rec["fields"], kids(e)):
+            if x is None:
+                self.undec("initialiser list of %s" % e.get("ty"), e)
+            if x["k"] == "ImplicitValueInitExpr":
+                t = bare_ty(f.get("ty"))
+                v = 0 if t in INT_MODEL else NULLP if t.endswith("*") else self.undec("value initialisation of a %s" % t, e)
+            else:
+                v = self.ev(x)
+                if isinstance(v, int) and bare_ty(f.get("ty")) not in INT_MODEL or isinstance(v, (Obj, Str)):
+                    self.undec("initialiser of the field %s" % f["name"], e)
+            obj.f[f["name"]] = v
+        return obj
+
     DISPATCH = {"IntegerLiteral": x_literal, "CXXBoolLiteralExpr": x_literal, "CharacterLiteral": x_literal, "NullPtr": x_null,
                 "StringLiteral": x_string, "DeclRefExpr": x_declref, "MemberExpr": x_member, "This": x_this, "UnaryOperator": x_unary,
                 "BinaryOperator": x_binary, "CompoundAssignOperator": x_compound, "ConditionalOperator": x_cond,
                 "ArraySubscriptExpr": x_index, "LambdaExpr": x_lambda, "CXXThrowExpr": x_throw,
-                "CXXConstructExpr": x_construct, "CXXTemporaryObjectExpr": x_construct}
+                "CXXConstructExpr": x_construct, "CXXTemporaryObjectExpr": x_construct, "InitListExpr": x_initlist}
     for _k in CAST_NODES:
         DISPATCH[_k] = x_cast
     del _k
@@ -2682,6 +3177,16 @@ class ConcEval:
             if fn.body is not None and kids(fn.body):
                 self.enter(fn, obj, env)
             return obj
+        if qn == "std::pair::pair" and pair_elems(e.get("ty")) is not None and all(a is not None and a["k"] != "DefaultArg" for a in args):
+            return self.pair_of(e.get("ty"), [self.ev(a) for a in args], e)
+        rec = plain_aggregate(self.tu, e.get("ty")) if fn is None or fn.body is None else None
+        if rec is not None:
+            if not args:
+                return Obj(rec["qname"], {f["name"]: UNINIT for f in rec["fields"]})    # Window w; - the fields have no value yet
+            v = self.ev(args[0]) if len(args) == 1 and args[0] is not None else None
+            if isinstance(v, Obj) and v.ty == rec["qname"]:
+                return v.copy()                                                         # the implicit copy / move constructor
+            self.undec("construction of %s" % e.get("ty"), e)
         if qn == "std::basic_string::basic_string":
             return self.make_string(e, [a for a in args if a is not None and a["k"] != "DefaultArg"])
         if qn == "std::basic_string_view::basic_string_view" and bare_ty(e.get("ty")) == STD_VIEW:
@@ -2761,6 +3266,16 @@ class ConcEval:
             if isinstance(dst, Obj) and isinstance(src, Obj):
                 self.assign_obj(dst, src, e)
                 return dst
+        if c.get("record") == "std::tuple" and name == "operator=" and len(ks) == 2 and tie_targets(ks[0]) is not None:
+            tt = tie_targets(ks[0])
+            src = self.ev(ks[1])
+            if not (isinstance(src, Obj) and pair_elems(src.ty) is not None and len(tt) == 2):
+                self.undec("std::tie(...) = something that is not a pair", e)
+            for t, fld in zip(tt, ("first", "second")):
+                loc = self.raw(t)
+                w = src.f[fld]
+                self.store(loc, self.conv(w, t.get("ty"), e) if isinstance(w, int) else w, e)
+            return 0
         h = self.BUILTINS.get(qn)
         if h is not None:
             return h(self, e, ks)
@@ -2944,6 +3459,27 @@ class ConcEval:
 
     # -- primitives of the standard library.  Each one states its precondition: a range that is handed over must be readable
     # -- completely (the standard allows the primitive to read all of it), so a byte outside the argument's memory is COutside.
+    def pair_of(self, ty, vals, e):
+        """std::pair<A, B>(x, y) / std::make_pair(x, y) / a copy of a pair of the same type"""
+        el = pair_elems(ty)
+        if el is None:
+            self.undec("construction of %s" % ty, e)
+        if len(vals) == 2:
+            f = {}
+            for name, v, t in zip(("first", "second"), vals, el):
+                if isinstance(v, int) and not isinstance(v, bool) and bare_ty(t) in INT_MODEL:
+                    v = self.conv(v, t, e)
+                elif not (is_ptr(v) and bare_ty(t).endswith("*")):
+                    self.undec("element of %s" % ty, e)
+                f[name] = v
+            return Obj(bare_ty(ty), f)
+        if len(vals) == 1 and isinstance(vals[0], Obj) and vals[0].ty == bare_ty(ty):
+            return vals[0].copy()
+        self.undec("construction of %s" % ty, e)
+
+    def b_make_pair(self, e, ks):
+        return self.pair_of(e.get("ty"), [self.ev(k) for k in ks], e)
+
     def b_minmax(self, e, ks):
         if len(ks) != 2:
             self.undec("std::min / std::max with a comparator or an initializer list", e)
@@ -3129,7 +3665,7 @@ class ConcEval:
                 return 0
         return last if nm in ("find_if", "find_if_not", "find") else int(nm != "any_of")
 
-    BUILTINS = {"std::min": b_minmax, "std::max": b_minmax,
+    BUILTINS = {"std::min": b_minmax, "std::max": b_minmax, "std::make_pair": b_make_pair,
                 "std::char_traits::compare": b_traits_compare, "memcmp": b_traits_compare, "std::memcmp": b_traits_compare,
                 "strlen": b_strlen, "std::strlen": b_strlen, "std::char_traits::length": b_traits_length,
                 "strcmp": b_strcmp, "std::strcmp": b_strcmp, "strncmp": b_strcmp, "std::strncmp": b_strcmp,
@@ -3199,7 +3735,23 @@ class ConcEval:
             raise _Break()
         if k == "ContinueStmt":
             raise _Continue()
-        if k in ("SwitchStmt", "GotoStmt", "LabelStmt", "CXXTryStmt", "AttributedStmt", "CaseStmt", "DefaultStmt"):
+        if k == "SwitchStmt":
+            plan = switch_plan(s)
+            if plan is None:
+                self.undec("switch with labels inside nested statements", s)
+            v = self.ev(plan[0])
+            if not isinstance(v, int):
+                self.undec("switch on a non-integer", s)
+            start = plan[2].get(v, plan[3])
+            if start is None:
+                return
+            try:
+                for st in plan[1][start:]:          # from the label on, falling through the labels that follow
+                    self.run(st)
+            except _Break:
+                pass
+            return
+        if k in ("GotoStmt", "LabelStmt", "CXXTryStmt", "AttributedStmt", "CaseStmt", "DefaultStmt"):
             self.undec("%s is not modelled" % k, s)
         self.raw(s)
 
